@@ -797,8 +797,11 @@ def to_id(f: Callable[[T], Any]) -> Callable[[T], T]:
 
 
 def instantiate_escaped_symbols(text: str) -> str:
-    backslash_escape_placeholder = "$$BESC$$"
-    assert backslash_escape_placeholder not in text
+    # A single character that does not occur in `text` (from the private use area,
+    # which no escape sequence below can produce).
+    backslash_escape_placeholder = next(
+        chr(code) for code in range(0xE000, 0xF8FF) if chr(code) not in text
+    )
 
     repl_map = {
         r"\b": "\b",
